@@ -271,7 +271,10 @@ class Gen:
         if k == "arr":
             sh = list(like["sh"]) if like is not None else self.shape(tx, _inarr)
             n = int(np.prod(sh))
-            vs = [self.value(tx["it"], b, None if like is None else like["it"][i], False, True) for i in range(n)]
+            tmpl = None if like is None else list(like["it"])
+            if tmpl is not None and n > 1 and not is_static(tx["it"]) and rng.random() < 0.6:
+                rng.shuffle(tmpl)       # same total size, item sizes redistributed: still a value of fitting size for the whole array
+            vs = [self.value(tx["it"], b, None if tmpl is None else tmpl[i], False, True) for i in range(n)]
             inp = {"sh": sh, "it": [v[0] for v in vs]}
             it = tx["it"]
             if (it["k"] == "sc" and like is None and not _inarr and self.dims_p and rng.random() < self.dims_p
